@@ -79,6 +79,37 @@ class Check:
                     print('KNOWN-FINDING: property=%s %s :: %s' % (self.pid, v['key'], self.known[v['key']]['what']))
             else:
                 new_viol.append(v)
+        # ---- second opinion: the closure view ------------------------------------------------------------------------------
+        # A violation that exists only because an event sits in a closure (a loop body turned into `iter().for_each(|x| ..)`, a test moved
+        # into `is_some_and(|v| ..)`) is not a violation of the property.  When there are new violations the same rule module is run once more
+        # on the closure view of the program (rules/inline.py flatten_closures: every closure placed at the call that runs it; the closure
+        # bodies themselves stay, so a defect INSIDE a closure is reported in both views).  Only violations derived in BOTH views are reported.
+        self.second_opinion = None
+        if new_viol and not os.environ.get('ASD_FLAT') and not os.environ.get('ASD_NO_SECOND_OPINION'):
+            import subprocess, tempfile, shutil, re as _re
+            tmpd = tempfile.mkdtemp(prefix='asd-flat.')
+            try:
+                env = dict(os.environ)
+                env.update({'ASD_FLAT': '1', 'ASD_INNER': '1', 'ASD_EVIDENCE_DIR': tmpd, 'VERIF_TIER': 'quick'})
+                r = subprocess.run([os.path.join(VERIF, 'check'), self.pid], env=env, text=True, capture_output=True)
+                flat_keys = set(_re.findall(r'\[(C\d+-[^\]]+)\]', r.stdout))
+                usable = r.returncode in (0, 1) and 'Traceback' not in r.stdout + r.stderr and 'ANALYSIS-ERROR' not in r.stdout
+                if usable:
+                    kept, dropped = [], []
+                    for v in new_viol:
+                        (kept if v['key'] in flat_keys else dropped).append(v)
+                    if dropped:
+                        dk = {v['key'] for v in dropped}
+                        for o in self.obligations:
+                            if not o['ok'] and (o['rule'] + '|' + o['key']) in dk:
+                                o['ok'] = True
+                                o['note'] = 'holds in the closure view (closures placed at the calls that run them)'
+                    new_viol = kept
+                    self.second_opinion = {'closure_view_run': True, 'confirmed': sorted(v['key'] for v in kept), 'not_confirmed_in_closure_view': sorted(v['key'] for v in dropped)}
+                else:
+                    self.second_opinion = {'closure_view_run': False, 'reason': 'the closure-view run did not complete; all violations are kept'}
+            finally:
+                shutil.rmtree(tmpd, ignore_errors=True)
         stale = [k for k in self.known if k not in self.known_seen]
         for k in stale:
             print('note: known finding no longer derived (stale entry): %s' % k)
@@ -104,6 +135,8 @@ class Check:
             cov['checker_cmd'] = checker_cmd or ('./check %s --tier %s' % (self.pid, self.tier))
             cov['trusted_base'] = self.trusted_base
         cov.update(self.extra)
+        if self.second_opinion:
+            cov['second_opinion'] = self.second_opinion
         ev = {
             'property_id': self.pid,
             'tier': self.tier,
